@@ -33,6 +33,9 @@ type entry struct {
 	Vars   map[string]any
 	Script []drive.Stim
 	Timer  bool // instance gets a mock clock and the timer definition builder
+	// HostTimer: the instance gets the timer definition builder on the HOST
+	// clock (no mock clock in its context); its timers are due in an hour
+	HostTimer bool
 }
 
 // clk advances the mock clock; fired (if not "") is the timer expression the
@@ -211,6 +214,23 @@ func corpus() []entry {
 	add("error answer whose handler decision is pending", lower(seq(&gen.Block{K: "par", Def: -1, Kids: []*gen.Block{seq(task()), seq(task(), task())}}, task())), nil, ansK("pending", 0), ans(), ans())
 	add("retry, skip, exit and plain error answers", lower(seq(task(), task(), &gen.Block{K: "par", Def: -1, Kids: []*gen.Block{seq(task()), seq(task())}}, task())), nil,
 		ansK(model.AnsRetry, 2), ansK(model.AnsRetry, 2), ans(), ansK(model.AnsSkip, 0), ansK(model.AnsErr, 0), ansK(model.AnsExit, 0))
+	// timers on the host clock, pending (due in an hour) when the context ends
+	{
+		b := gen.NewB()
+		st := b.Add(gen.KStart)
+		t1 := b.Add(gen.KTask)
+		f := b.Add(gen.KPar)
+		b.Connect(st, t1)
+		b.Connect(t1, f)
+		for _, d := range []gen.EventDef{{Kind: "timer", TimerKind: "timeDuration", TimerExpr: "PT1H"}, {Kind: "timer", TimerKind: "timeCycle", TimerExpr: "R3/PT1H"}} {
+			c := b.Add(gen.KCatch)
+			c.Defs = []gen.EventDef{d}
+			en := b.Add(gen.KEnd)
+			b.Connect(f, c)
+			b.Connect(c, en)
+		}
+		out = append(out, entry{Name: "timer catch events on the host clock, pending", G: b.G, HostTimer: true, Script: []drive.Stim{ans()}})
+	}
 	return out
 }
 
@@ -276,7 +296,7 @@ func run(d descriptor, k int) *result {
 	}
 	prog := &gen.Program{G: e.G, DefaultLang: "expr"}
 	tr := quiesce.Begin()
-	in, err := drive.New(prog.XML(), drive.Options{Vars: e.Vars, Tracker: tr, MockClock: e.Timer, SplitCtx: d.Split || d.SplitRun})
+	in, err := drive.New(prog.XML(), drive.Options{Vars: e.Vars, Tracker: tr, MockClock: e.Timer, HostTimers: e.HostTimer, SplitCtx: d.Split || d.SplitRun})
 	if err != nil {
 		r.Symptom, r.Detail = "construct", err.Error()
 		return r
